@@ -60,6 +60,13 @@ func c11Chain(d int, slow bool) c05Prog {
 		}
 		pg.rules = append(pg.rules, cr)
 	}
+	// the order in which rules are registered must not matter: also try the reverse dependency order
+	if vChoose("rule-order", 2) == 1 {
+		for i, j := 0, len(pg.rules)-1; i < j; i, j = i+1, j-1 {
+			pg.rules[i], pg.rules[j] = pg.rules[j], pg.rules[i]
+		}
+		vLabel("rules in reverse dependency order")
+	}
 	return pg
 }
 
